@@ -11,12 +11,14 @@ Each props.d file defines:
   GEN       dict table-name -> Gen/*.v path (tables this property introduced)
   MANIFEST  dict(engine, design_ref, technique, text, note)
   ENGINE    optional dict(name, path, serves_properties, kind_free_text)
+  SETUP     optional list of commands (argv lists, relative to the tree root) that `./check setup` runs
+            after the Coq build, e.g. building an extracted OCaml model into .work/
 """
 import glob
 import importlib.util
 import os
 
-PROPS, GEN_FILES, MANIFEST_TEXT, ENGINES = {}, {}, {}, []
+PROPS, GEN_FILES, MANIFEST_TEXT, ENGINES, SETUP_CMDS = {}, {}, {}, [], []
 _d = os.path.join(os.path.dirname(os.path.abspath(__file__)), "props.d")
 for _f in sorted(glob.glob(os.path.join(_d, "C*.py"))):
     _pid = os.path.basename(_f)[:-3]
@@ -26,6 +28,9 @@ for _f in sorted(glob.glob(os.path.join(_d, "C*.py"))):
     PROPS[_pid] = _m.PROP
     GEN_FILES.update(getattr(_m, "GEN", {}))
     MANIFEST_TEXT[_pid] = _m.MANIFEST
+    for _c in getattr(_m, "SETUP", []):
+        if _c not in SETUP_CMDS:
+            SETUP_CMDS.append(_c)
     _e = getattr(_m, "ENGINE", None)
     if _e:
         for _x in ENGINES:
